@@ -47,7 +47,8 @@ func (node *tagIncludeNode) Execute(ctx *ExecutionContext, writer TemplateWriter
 		includedTpl, err2 := ctx.template.set.FromFile(includedFilename)
 		if err2 != nil {
 			// if this is ReadFile error, and "if_exists" flag is enabled
-			if node.ifExists && err2.(*Error).Sender == "fromfile" {
+			// (only if it is the named template that is missing, not one it refers to)
+			if e := err2.(*Error); node.ifExists && e.Sender == "fromfile" && e.Filename == includedFilename {
 				return nil
 			}
 			return err2.(*Error)
@@ -91,7 +92,8 @@ func tagIncludeParser(doc *Parser, start *Token, arguments *Parser) (INodeTag, *
 		includedTpl, err := doc.template.set.FromFile(includedFilename)
 		if err != nil {
 			// if this is ReadFile error, and "if_exists" token presents we should create and empty node
-			if err.(*Error).Sender == "fromfile" && ifExists {
+			// (only if it is the named template that is missing, not one it refers to)
+			if e := err.(*Error); e.Sender == "fromfile" && e.Filename == includedFilename && ifExists {
 				return &tagIncludeEmptyNode{}, nil
 			}
 			return nil, err.(*Error).updateFromTokenIfNeeded(doc.template, filenameToken)
